@@ -49,7 +49,7 @@ def setup(tier):
 
 
 def budget(tier):
-    return {"examples": 4000, "shards": 1} if tier == "quick" else {"examples": 12000, "shards": 16}
+    return {"examples": 3000, "shards": 1} if tier == "quick" else {"examples": 12000, "shards": 16}
 
 
 def strategy(tier):
